@@ -31,7 +31,7 @@ RULE = ('case = (state, view area, observation function[, seed]). non-trivial = 
         'one side or the heading is not FORWARD; distinct by (function, area, deep state encoding).')
 ASSUMPTIONS = ['reference geometry: view cell (i,j) of area [(y0,y1),(x0,x1)] shows agent + (-(y0+i))*front + (x0+j)*right']
 EXHAUSTIVE_NOTE = 'all 48 poses of a 3x4 grid x all 81 areas within [-2,2]^2 containing the origin x 4 functions (+ from_visibility forms)'
-REQUIRED = {'quick': {'obs.checked': 15000, 'exhaustive.cases': 10000, 'cells.shown': 50000, 'cells.outside': 20000,
+REQUIRED = {'quick': {'worlds.with_empty_cells': 60, 'obs.checked': 15000, 'exhaustive.cases': 10000, 'cells.shown': 50000, 'cells.outside': 20000,
                       'heading.LEFT': 500, 'heading.RIGHT': 500, 'heading.BACKWARD': 500, 'shipped.obs': 1000,
                       'fn.fully_transparent': 1000, 'fn.partially_occluded': 500, 'fn.raytracing': 1000,
                       'fn.stochastic_raytracing': 1000, 'fn.parametrised_visibility': 500, 'history_states.compared': 300, 'views.excluding_agent': 100, 'views.custom_visibility': 100,
@@ -146,8 +146,12 @@ def random_cases(ctx, n):
             ctx.add('random_cases_skipped_for_time')
             break
         rng = gen.rng_for('C05rand', ctx.seed, ctx.shard, k)
-        state, area, cat = obsgen.rand_case(rng)
+        # a quarter of the worlds have cells holding no object at all (NoneGridObject, not Hidden): shown as what they are
+        empty_cells = k % 4 == 3
+        state, area, cat = obsgen.rand_case(rng, types=gen.GRID_TYPES + [NoneGridObject] if empty_cells else None)
         ctx.cat('pose.' + cat)
+        if empty_cells:
+            ctx.hit('worlds.with_empty_cells')
         for name in obsgen.ALL + obsgen.PARAMETRISED:
             if obsgen.supported(name, area):
                 for rep in range(3 if name == 'stochastic_raytracing' else 1):
